@@ -14,7 +14,7 @@ theorem step_asg (cfg : Cfg) (s : St) (e : Ev) (h : ∀ a, e ≠ .syncDone (.ok 
     | ok a => exact absurd rfl (h a)
     | err e => simp only [step]; split <;> simp
   | start => simp only [step]; split <;> simp
-  | stop => simp [step]
+  | stop => rcases userStop_cases cfg s with ⟨hu, _, _⟩ | hu <;> simp [step, hu]
   | coordDone r => cases r <;> simp only [step] <;> (repeat' split) <;> simp
   | metaDone r => cases r <;> simp only [step] <;> (repeat' split) <;> simp
   | joinDone r =>
@@ -46,7 +46,11 @@ theorem step_noheld (cfg : Cfg) (s : St) (e : Ev) (h : ∀ a, e ≠ .syncDone (.
     simp only [step]; split
     · exact hn
     · exact noheld_of_cons hn (by simp)
-  | stop => simp only [step]; exact stopCall_nh cfg s _ _ hn
+  | stop =>
+    simp only [step]
+    rcases userStop_cases cfg s with ⟨hu, _, _⟩ | hu <;> rw [hu]
+    · exact hn
+    · exact stopCall_nh cfg s _ _ hn
   | coordDone r =>
     simp only [step]; split
     · exact hn
